@@ -22,7 +22,7 @@ func init() {
 			StatesMean:  "distinct (command statement, host configuration) cases; transitions = real Next calls",
 			Assumptions: []string{"a decimal literal is what the language's grammar calls a number (digits, optionally a dot and digits), optionally negative: 1. and .5 are words; 1e3 is not generated", "a word directly adjacent to an inline expression is not generated", "sequences: after the error of an unregistered command the dialogue continues with the following statement"},
 		},
-		QuickBudget: 70 * time.Second, ThoroughBudget: 12 * time.Minute, CrashIsViolation: true,
+		QuickBudget: 180 * time.Second, ThoroughBudget: 12 * time.Minute, CrashIsViolation: true,
 		Run: runC17,
 	})
 }
